@@ -21,7 +21,7 @@ from .. import vlib, runner
 from ..vlib import tobytes, ToolError, WIDTHS, pairs, boundary_values, rand_value, nlimbs, limb_pattern_pairs
 from . import C07
 
-RULE = ("(B1) every transition of UintMachine (57 operations x all register values x all immediates) at widths 0..3 (quick) / "
+RULE = ("(B1) every transition of UintMachine (101 operations x all register values x all immediates) at widths 0..3 (quick) / "
         "0..5 (thorough), invariants Canonical + NativeOK, each transition replayed on the real Uint; (B2) simulated histories "
         "(depth 25, 4 registers) at widths {1,7,60,63,64,65,100,127,129,250,255,257}, register file compared after every step, plus a second batch restricted to the masking-sensitive operations at the "
         "non-aligned widths; (B4) histories drawn by the executor's own driver (any shift amount / bit index) at 16 widths, every logged "
